@@ -67,15 +67,16 @@ fn system(i: u64) -> (Context, TransitionSystem, String) {
     let mut sm = crate::tape::SplitMix(0xC15 + i * 7919);
     let mut first: Option<Vec<u8>> = None;
     let mut chosen: Option<Vec<u8>> = None;
-    for _ in 0..400 {
+    for _ in 0..3000 {
         let tape: Vec<u8> = (0..300).map(|_| (sm.next() & 0xff) as u8).collect();
         let (ctx, sys, _) = decode(&tape);
         let sim = RefSim::new(&ctx, &sys);
         let Ok(reach) = reachability(&sim) else { continue };
         let ok = if i % 2 == 0 {
-            matches!(reach.min_any_bad(), Some(d) if (1..=4).contains(&d))
+            // counterexample a few steps deep / safe system with a real frontier: long conversations
+            matches!(reach.min_any_bad(), Some(d) if (2..=4).contains(&d))
         } else {
-            reach.min_any_bad().is_none() && reach.reachable >= 3
+            reach.min_any_bad().is_none() && reach.reachable >= 4 && reach.diameter >= 2
         };
         if first.is_none() {
             first = Some(tape.clone());
